@@ -136,6 +136,8 @@ def run(ctx):
         ctx.sample({'query': c['q'], 'A': c['A'], 'model': e, 'implementation': {k2: g_.get(k2) for k2 in ('events', 'pulls', 'error')} if isinstance(g_, dict) else g_})
     # corners outside the Coq value domain, against a harness-side specification
     importlib.import_module('props.c03x').run(ctx, THEOREM)
+    # which strings are numbers: NumLit.v against int / float / Number and against MAX(a1) of both engines
+    importlib.import_module('props.numlit').run(ctx)
     # rbql-js/rbql.js is an anchor of this property too: the JavaScript leg runs language-neutral queries of this shape through rbql-js
     importlib.import_module('props.c19').js_leg(ctx, THEOREM, 'agg', 600 if ctx.tier == 'quick' else 60000)
 
@@ -143,6 +145,8 @@ def run(ctx):
 def replay(ctx, case):
     if str(case.get('part', '')).startswith('c03x'):
         return importlib.import_module('props.c03x').replay(ctx, case, THEOREM)
+    if case.get('part') == 'numlit':
+        return importlib.import_module('props.numlit').replay(ctx, case)
     if case.get('impl') == 'js':
         return importlib.import_module('props.c19').replay(ctx, case)
     ec.replay(ctx, case, THEOREM)
